@@ -149,3 +149,176 @@ Print Assumptions C07_fft_exact_if_close_even.
 Example C07_round_ex : round_half (-7) 2 = -4 /\ round_half_even (-7) 2 = -4 /\ round_half 5 2 = 3 /\ round_half_even 5 2 = 2
                        /\ 2 * Z.abs (-1000001 - (-1) * 1000000) < 1000000.
 Proof. repeat split; reflexivity. Qed.
+
+(* ====================================================================================================== *)
+(* Part B: NTT120 scalar layer.  Constants are the generated ones (Gen/C07Consts_gen.v).
+   The butterfly networks ntt_ref / intt_ref are NOT covered by any theorem below. *)
+From PV Require Import Proofs.C07Ntt Proofs.C07Lazy Proofs.C07LazyBbb.
+
+Theorem C07_crt_consts_ok : forall ps, In ps [primes29; primes30; primes31] ->
+  (forall i j, (i < j < 4)%nat -> Z.gcd (qk ps i) (qk ps j) = 1) /\
+  (forall k, (k < 4)%nat -> (Qprod ps / qk ps k * crtk ps k) mod qk ps k = 1 /\ 0 <= crtk ps k < qk ps k).
+Proof. exact crt_consts_ok. Qed.
+Print Assumptions C07_crt_consts_ok.
+
+Theorem C07_omega_order : forall ps, In ps [primes29; primes30; primes31] -> forall k, (k < 4)%nat ->
+  omegak ps k ^ (2 ^ log_max_n) mod qk ps k = qk ps k - 1 /\ 1 < qk ps k.
+Proof. exact omega_order. Qed.
+Print Assumptions C07_omega_order.
+
+Theorem C07_omega_root_of_unity : forall ps, In ps [primes29; primes30; primes31] -> forall k, (k < 4)%nat ->
+  omegak ps k ^ (2 ^ (log_max_n + 1)) mod qk ps k = 1.
+Proof. exact omega_root_of_unity. Qed.
+Print Assumptions C07_omega_root_of_unity.
+Example C07_consts_ex : qk primes30 0 = 2 ^ 30 - 2 * 2 ^ 17 + 1 /\ omegak primes30 3 = 846468380 /\ log_max_n = 16 /\
+                        nth 0 Q_SHIFTED 0 = qk primes30 0 * 2 ^ 33.
+Proof. repeat split; reflexivity. Qed.
+
+Theorem C07_b_from_znx64_congr : forall x, in_range 64 x -> forall q, 0 < q < 2 ^ 32 ->
+  b_from_znx64_k q x mod q = x mod q /\ 0 <= b_from_znx64_k q x < 2 ^ 64.
+Proof. exact b_from_znx64_congr. Qed.
+Print Assumptions C07_b_from_znx64_congr.
+
+Theorem C07_b_from_znx64_vec : forall ps, In ps [primes29; primes30; primes31] -> forall x, in_range 64 x -> forall k, (k < 4)%nat ->
+  nth k (b_from_znx64 ps x) 0 mod qk ps k = x mod qk ps k /\ 0 <= nth k (b_from_znx64 ps x) 0 < 2 ^ 64.
+Proof. exact b_from_znx64_vec. Qed.
+Print Assumptions C07_b_from_znx64_vec.
+
+Theorem C07_b_from_znx64_masked_congr : forall x m, in_range 64 x -> in_range 64 m -> forall q, 0 < q < 2 ^ 32 ->
+  b_from_znx64_k q (Z.land x m) mod q = Z.land x m mod q /\ 0 <= b_from_znx64_k q (Z.land x m) < 2 ^ 64.
+Proof. exact b_from_znx64_masked_congr. Qed.
+Print Assumptions C07_b_from_znx64_masked_congr.
+Example C07_b_from_ex : in_range 64 (- 2 ^ 63) /\ b_from_znx64 primes30 (-1) = [9223372037798232568; 9223372036970549444; 9223372037283580214; 9223372037380339331].
+Proof. split; [unfold in_range; lia|reflexivity]. Qed.
+
+Theorem C07_c_from_b_correct : forall q x, 0 < q < 2 ^ 32 ->
+  exists r r', c_from_b_k q x = [r; r'] /\ 0 <= r < q /\ 0 <= r' < q /\ r mod q = x mod q /\ r' mod q = (x * 2 ^ 32) mod q.
+Proof. exact c_from_b_correct. Qed.
+Print Assumptions C07_c_from_b_correct.
+
+Theorem C07_c_from_znx64_correct : forall q x, 0 < q < 2 ^ 32 ->
+  exists r r', c_from_znx64_k q x = [r; r'] /\ 0 <= r < q /\ 0 <= r' < q /\ r mod q = x mod q /\ r' mod q = (x * 2 ^ 32) mod q.
+Proof. exact c_from_znx64_correct. Qed.
+Print Assumptions C07_c_from_znx64_correct.
+
+Theorem C07_same_residue_same_output : forall ps x y,
+  (forall k, (k < 4)%nat -> nth k x 0 mod qk ps k = nth k y 0 mod qk ps k) -> b_to_znx128 ps x = b_to_znx128 ps y.
+Proof. exact same_residue_same_output. Qed.
+Print Assumptions C07_same_residue_same_output.
+
+Theorem C07_b_to_znx128_exact : forall ps, In ps [primes29; primes30; primes31] -> forall x v,
+  (forall k, (k < 4)%nat -> nth k x 0 mod qk ps k = v mod qk ps k) -> 2 * Z.abs v < Qprod ps ->
+  b_to_znx128 ps x = v.
+Proof. exact b_to_znx128_exact. Qed.
+Print Assumptions C07_b_to_znx128_exact.
+Example C07_b_to_znx128_ex : b_to_znx128 primes30 [2 ^ 64 - 1; 5 * qk primes30 1 + 3; 3; qk primes30 3 * 2 ^ 33 + 3] =
+                             b_to_znx128 primes30 [(2 ^ 64 - 1) mod qk primes30 0; 3; 3; 3]
+                             /\ 2 * Z.abs (- 2 ^ 118) < Qprod primes30.
+Proof. split; [vm_compute; reflexivity|vm_compute; reflexivity]. Qed.
+
+Theorem C07_b_round_trip : forall ps, In ps [primes29; primes30; primes31] -> forall x, in_range 64 x ->
+  b_to_znx128 ps (b_from_znx64 ps x) = x.
+Proof. exact b_round_trip. Qed.
+Print Assumptions C07_b_round_trip.
+
+Theorem C07_lazy_budget_bbc : forall h q terms, bbc_h_lo <= h < bbc_h_hi -> 2 ^ 15 <= q < 2 ^ 31 ->
+  Z.of_nat (length terms) <= bbc_max_ell -> (forall t, In t terms -> term_ok t) ->
+  bbc_k h q terms = bbc_exact h q terms /\ 0 <= bbc_exact h q terms < q * 2 ^ q_shift /\ q * 2 ^ q_shift < 2 ^ 64.
+Proof. exact lazy_budget_bbc. Qed.
+Print Assumptions C07_lazy_budget_bbc.
+
+Theorem C07_lazy_budget_bbc_acc : forall terms, Z.of_nat (length terms) <= bbc_max_ell -> (forall t, In t terms -> term_ok t) ->
+  (sum64 (map bbc_lo terms) = lsum (map lo_z terms) /\ sum64 (map bbc_hi terms) = lsum (map hi_z terms)) /\
+  0 <= lsum (map lo_z terms) <= bbc_max_ell * (2 ^ 33 - 2) /\ 0 <= lsum (map hi_z terms) <= bbc_max_ell * (2 ^ 33 - 4).
+Proof. intros terms H1 H2. split; [exact (bbc_sums_exact terms H1 H2)|exact (bbc_acc_bounds terms H1 H2)]. Qed.
+Print Assumptions C07_lazy_budget_bbc_acc.
+
+Theorem C07_lsum_prefix : forall l m, (forall t, In t l -> 0 <= t) -> 0 <= lsum (firstn m l) <= lsum l.
+Proof. exact lsum_prefix. Qed.
+Print Assumptions C07_lsum_prefix.
+
+Theorem C07_bbc_exact_congr : forall h q terms, bbc_h_lo <= h < bbc_h_hi -> 2 ^ 15 <= q < 2 ^ 31 ->
+  (forall t, In t terms -> term_ok t) -> bbc_exact h q terms mod q = lsum (map prod_z terms) mod q.
+Proof. exact bbc_exact_congr. Qed.
+Print Assumptions C07_bbc_exact_congr.
+
+Theorem C07_bbc_congr : forall h q terms, bbc_h_lo <= h < bbc_h_hi -> 2 ^ 15 <= q < 2 ^ 31 ->
+  Z.of_nat (length terms) <= bbc_max_ell -> (forall t, In t terms -> term_ok t) ->
+  (forall t, In t terms -> prepared q t) -> bbc_k h q terms mod q = lsum (map dot_z terms) mod q.
+Proof. exact bbc_congr. Qed.
+Print Assumptions C07_bbc_congr.
+Example C07_bbc_ex : term_ok (2 ^ 32 - 1, 2 ^ 32 - 1, (2 ^ 32 - 1, 2 ^ 32 - 1)) /\ prepared 7 (1, 2, (3, (3 * 2 ^ 32) mod 7 + 7)) /\
+                     bbc_k 25 (qk primes30 0) [(5, 0, (7, 0)); (1, 1, (2, 2 * 2 ^ 32 mod qk primes30 0))] = 35 + 2 + 2 * 2 ^ 32 mod qk primes30 0.
+Proof.
+  split; [|split].
+  - cbn [term_ok]. unfold is_u32. change (2 ^ 32) with 4294967296. lia.
+  - vm_compute. reflexivity.
+  - vm_compute. reflexivity.
+Qed.
+
+Theorem C07_lazy_budget_bbb : forall h q xy, 20 <= h <= 28 -> 2 ^ 15 <= q < 2 ^ 31 ->
+  Z.of_nat (length xy) <= bbb_max_ell -> (forall p, In p xy -> pair_ok p) ->
+  bbb_k h q xy = bbb_exact h q xy /\ 0 <= bbb_exact h q xy < 2 ^ 63.
+Proof. exact lazy_budget_bbb. Qed.
+Print Assumptions C07_lazy_budget_bbb.
+
+Theorem C07_bbb_congr : forall h q xy, 20 <= h <= 28 -> 2 ^ 15 <= q < 2 ^ 31 ->
+  Z.of_nat (length xy) <= bbb_max_ell -> (forall p, In p xy -> pair_ok p) ->
+  bbb_k h q xy mod q = bbb_dot xy mod q.
+Proof. exact bbb_congr. Qed.
+Print Assumptions C07_bbb_congr.
+
+Theorem C07_generated_in_budget_domain : forall ps, In ps [primes29; primes30; primes31] ->
+  bbc_h_lo <= ps_bbc_h ps < bbc_h_hi /\ 20 <= ps_bbb_h ps <= 28 /\ forall k, (k < 4)%nat -> 2 ^ 15 <= qk ps k < 2 ^ 31.
+Proof. exact generated_in_budget_domain. Qed.
+Print Assumptions C07_generated_in_budget_domain.
+
+Theorem C07_add_bbb_congr : forall q, 0 < q < 2 ^ 30 -> forall x y,
+  add_bbb_k q x y mod q = (x + y) mod q /\ 0 <= add_bbb_k q x y < 2 * qshift q /\ 2 * qshift q < 2 ^ 64.
+Proof. exact add_bbb_congr. Qed.
+Print Assumptions C07_add_bbb_congr.
+
+Theorem C07_sub_bbb_congr : forall q, 0 < q < 2 ^ 30 -> forall x y,
+  sub_bbb_k q x y mod q = (x - y) mod q /\ 0 <= sub_bbb_k q x y < 2 * qshift q.
+Proof. exact sub_bbb_congr. Qed.
+Print Assumptions C07_sub_bbb_congr.
+
+Theorem C07_neg_b_congr : forall q, 0 < q < 2 ^ 30 -> forall x, neg_b_k q x mod q = (- x) mod q /\ 0 < neg_b_k q x <= qshift q.
+Proof. exact neg_b_congr. Qed.
+Print Assumptions C07_neg_b_congr.
+
+(* a documented claim that is false on the faithful model (and on the Rust code: record 7106 with pset 31) *)
+Theorem C07_add_bbb_primes31_refuted : exists x y, let q := qk primes31 0 in
+  0 <= x < qshift q /\ 0 <= y < qshift q /\ add_bbb_k q x y mod q <> (x + y) mod q.
+Proof. exact add_bbb_primes31_refuted. Qed.
+Print Assumptions C07_add_bbb_primes31_refuted.
+
+From PV Require Import Proofs.C07LazyBaa.
+Theorem C07_lazy_budget_baa : forall h q xy, 45 <= h <= 47 -> 2 ^ 15 <= q < 2 ^ 31 ->
+  Z.of_nat (length xy) <= baa_max_ell -> (forall p, In p xy -> baa_pair_ok p) ->
+  baa_k h q xy = baa_exact h q xy /\ 0 <= baa_exact h q xy < 2 ^ 64.
+Proof. exact lazy_budget_baa. Qed.
+Print Assumptions C07_lazy_budget_baa.
+
+Theorem C07_baa_congr : forall h q xy, 45 <= h <= 47 -> 2 ^ 15 <= q < 2 ^ 31 ->
+  Z.of_nat (length xy) <= baa_max_ell -> (forall p, In p xy -> baa_pair_ok p) ->
+  baa_k h q xy mod q = baa_dot xy mod q.
+Proof. exact baa_congr. Qed.
+Print Assumptions C07_baa_congr.
+
+Theorem C07_generated_baa_h : forall ps, In ps [primes29; primes30; primes31] -> 45 <= ps_baa_h ps <= 47.
+Proof. exact generated_baa_h. Qed.
+Print Assumptions C07_generated_baa_h.
+
+From PV Require Import Proofs.C07Pipeline.
+(* i64 a -> q120b, i64 b -> q120c, one-term bbc product: the residue of a*b for every prime; with C07_b_to_znx128_exact
+   the reconstructed value is the exact integer a*b whenever 2|a*b| < Q *)
+Theorem C07_scalar_product_residue : forall h q a b,
+  bbc_h_lo <= h < bbc_h_hi -> 2 ^ 15 <= q < 2 ^ 31 -> in_range 64 a ->
+  let x := b_from_znx64_k q a in
+  let r := nth 0 (c_from_znx64_k q b) 0 in let r' := nth 1 (c_from_znx64_k q b) 0 in
+  bbc_k h q [(x mod 2 ^ 32, x / 2 ^ 32, (r, r'))] mod q = (a * b) mod q.
+Proof. exact scalar_product_residue. Qed.
+Print Assumptions C07_scalar_product_residue.
+Example C07_scalar_product_ex : run_c07_ntt 7116 [3; 30] [[-3; 2 ^ 59]; [7; - 2 ^ 59]] = Some [[-21; - 2 ^ 118]].
+Proof. vm_compute. reflexivity. Qed.
